@@ -9,11 +9,15 @@ import os
 
 from harness import graphgen
 from harness.fw import VERIF, Check, Driver
-from harness.graphsweep import NPROC, sweep
+from harness.graphsweep import NPROC, large_tasks, short_diff, sweep
 
 CMD = "dom"
+CMD_LARGE = "domq"          # same model without the O(n^3) certificate check (graphs with thousands of nodes)
 EXE = "drv_C18"
 MODULE = "harness.props.c18"
+# hand-modelled functions: a changed AST is not a verdict, it escalates the search (ck.pins_changed)
+PINS = [("androguard/decompiler/graph.py", "dom_lt"), ("androguard/decompiler/graph.py", "Graph.all_sucs"),
+        ("androguard/decompiler/graph.py", "Graph.immediate_dominators")]
 
 
 # ---------------------------------------------------------------- real code
@@ -57,8 +61,8 @@ def canon_model(reply: str) -> str:
 
 
 def certified(reply: str):
-    if not reply.startswith("ok "):
-        return None
+    if not reply.startswith("ok ") or "|cert=" not in reply:
+        return None                      # `domq` replies (large graphs) carry no certificate verdict
     return reply.endswith("|cert=1")
 
 
@@ -78,9 +82,61 @@ def idom_by_definition(G):
     return reach, res
 
 
-def oracle(G, reply, dom):
+def idom_by_dataflow(G):
+    """for graphs with thousands of nodes: the dominator SETS as the maximal solution of
+    Dom(entry) = {entry}, Dom(v) = {v} ∪ ⋂_{p → v} Dom(p)  (bit vectors = Python integers), then the immediate
+    dominator of v = the strict dominator whose own set is the largest (the dominators of v form a chain).
+    Independent of Lengauer-Tarjan and of the Lean model.  Rooted graphs only."""
     n, entry = G[0], G[1]
-    case = {"graph": graphgen.encode(G)}
+    preds = [[] for _ in range(n)]
+    for u in range(n):
+        for v in graphgen.all_sucs(G, u):
+            preds[v].append(u)
+    # any fair order works; a DFS preorder converges quickly
+    order, seen, todo = [], {entry}, [entry]
+    while todo:
+        u = todo.pop()
+        order.append(u)
+        for v in graphgen.all_sucs(G, u):
+            if v not in seen:
+                seen.add(v)
+                todo.append(v)
+    full = (1 << n) - 1
+    dom = [full] * n
+    dom[entry] = 1 << entry
+    changed = True
+    while changed:
+        changed = False
+        for v in order:
+            if v == entry:
+                continue
+            new = full
+            for p in preds[v]:
+                new &= dom[p]
+            new |= 1 << v
+            if new != dom[v]:
+                dom[v] = new
+                changed = True
+    size = [d.bit_count() for d in dom]
+    res = {}
+    for v in order:
+        if v == entry:
+            continue
+        x = dom[v] & ~(1 << v)
+        want, found = size[v] - 1, []
+        while x:
+            low = x & -x
+            d = low.bit_length() - 1
+            x ^= low
+            if size[d] == want:
+                found.append(d)
+        res[v] = found
+    return set(order), res
+
+
+def oracle(G, reply, dom, desc=None):
+    n, entry = G[0], G[1]
+    case = {"large": desc} if desc else {"graph": graphgen.encode(G)}
     if not graphgen.is_rooted(G):
         return []
     if dom is None:
@@ -88,7 +144,14 @@ def oracle(G, reply, dom):
     out = []
     if dom[entry] != "N":
         out.append(dict(case=case, what="the entry has an immediate dominator", key=None, expected="None", observed=dom[entry]))
-    reach, res = idom_by_definition(G)
+    reach, res = idom_by_definition(G) if n <= 400 else idom_by_dataflow(G)
+    if n > 400:
+        # spot check of the dataflow oracle against the definition: removing idom(v) must disconnect v
+        import random
+        rng = random.Random("spot/%s" % (desc,))
+        for v in rng.sample([x for x in range(n) if x != entry], 12):
+            if len(res[v]) == 1 and v in graphgen.reachable(G, avoid=res[v][0]):
+                raise AssertionError("oracle: dataflow idom of %d does not dominate it (%r)" % (v, case))
     for v in range(n):
         if v == entry:
             continue
@@ -101,17 +164,18 @@ def oracle(G, reply, dom):
     return out[:3]
 
 
-def evaluate(G):
+def evaluate(G, desc=None):
     reply, dom = real_dom(G)
-    fails = oracle(G, reply, dom)
+    fails = oracle(G, reply, dom, desc)
     f = graphgen.features(G)
     tags = [k for k in ("rooted", "self_loop", "catch", "dup_suc") if f[k]]
     tags.append("n<=5" if f["n"] <= 5 else "n<=40" if f["n"] <= 40 else "n<=100" if f["n"] <= 100 else "n>100")
     if f["rooted"] and f["n"] >= 3:
         tags.append("nontrivial")
-        if dom is not None and any(dom[v] not in ("N", "-") and int(dom[v]) not in [u for u in range(G[0]) if v in graphgen.all_sucs(G, u)]
-                                   for v in range(G[0])):
-            tags.append("idom_not_a_pred")
+        if dom is not None:
+            edge = {(u, v) for u in range(G[0]) for v in graphgen.all_sucs(G, u)}
+            if any(dom[v] not in ("N", "-") and (int(dom[v]), v) not in edge for v in range(G[0])):
+                tags.append("idom_not_a_pred")
     return reply, fails, tags
 
 
@@ -142,6 +206,8 @@ def exhaustive_tasks(max_n, chunks_last):
 
 def run(ck: Check):
     import time
+    ck.pins_changed(PINS)
+    esc = getattr(ck, "escalated", False)
     t0 = time.time()
     ck.prove(exes=[EXE])
     t_prove = time.time() - t0
@@ -153,7 +219,12 @@ def run(ck: Check):
                "distinct = distinct graph; non-trivial = rooted with at least 3 nodes (only rooted graphs are judged by the oracle)")
     tasks = [{"kind": "list", "graphs": corpus_graphs(), "module": MODULE}]
     tasks += exhaustive_tasks(4 if ck.quick else 5, 16 if ck.quick else 256)
-    nrand = 960 if ck.quick else 16000
+    if ck.quick and esc:
+        # a modelled function changed: every 16th five-node digraph on top of the quick scope
+        tasks += [{"kind": "exh", "n": 5, "lo": lo, "hi": lo + (1 << 14), "module": MODULE} for lo in range(0, 1 << 25, 1 << 18)]
+    ltasks, limit = large_tasks(MODULE, esc or not ck.quick)
+    tasks = ltasks + tasks
+    nrand = 960 if ck.quick and not esc else 16000
     per = nrand // 32
     tasks += [{"kind": "random", "seed": "C18/%d/%d" % (ck.seed, i), "count": per, "max_n": 300, "module": MODULE}
               for i in range(32)]
@@ -161,7 +232,13 @@ def run(ck: Check):
     tags, total = sweep(ck, "dom", tasks, NPROC)
     ck.notes.append("wall: proof leg (lake build under the shared lock + axiom audit) %.1fs, correspondence+search sweep on %d processes %.1fs"
                     % (t_prove, NPROC, time.time() - t0))
-    ck.cover(dist=dict({k: v for k, v in sorted(tags.items())},
+    ck.rule += ("; large-size stream (always): %d named graphs (family, n, seed) of six families with edges into the entry, sizes around "
+                "half the recursion limit androguard sets (%d), 3000 and limit+100, compared with the model without the O(n^3) "
+                "certificate (domlt_correct covers it) and judged by an independent bit-vector dataflow oracle spot-checked against the "
+                "definition; DFS depths exercised are listed in input_distribution.large_graphs (graphs whose DFS depth exceeds "
+                "limit-400 are skipped: the recursive code raises RecursionError there)" % (len(ltasks), limit))
+    ck.cover(dist=dict({k: v for k, v in sorted(tags.items())}, recursion_limit_set_by_androguard=limit,
+                       large_graphs=sorted(total["large_info"]),
                        model_answers_certified_by_checkDomTree=total["certified"], model_answers_uncertified=total["uncertified"]))
     ck.notes.append("domlt_correct (Lengauer-Tarjan correctness of the model for all well-formed graphs: total, returns the dominator tree) "
                     "is proved in Lean; the per-case run of the verified checker on the model's answer is kept as a redundant cross-check "
@@ -175,15 +252,22 @@ def run(ck: Check):
 def replay(ck: Check, rp):
     c = rp.get("case") or rp.get("first_divergence", {})
     print("replay", json.dumps(c))
-    gs = c.get("graph") or " ".join(c.get("request", "").split(" ")[1:])
-    if gs:
-        G = graphgen.decode(gs)
+    desc = c.get("large")
+    rq = c.get("request", "")
+    if not desc and " large family=" in rq:
+        kv = dict(t.split("=") for t in rq.split(" ")[2:])
+        desc = {"family": kv["family"], "n": int(kv["n"]), "seed": kv["seed"]}
+    gs = None if desc else (c.get("graph") or " ".join(rq.split(" ")[1:]))
+    if desc or gs:
+        G = graphgen.large_graph(desc["family"], int(desc["n"]), desc["seed"]) if desc else graphgen.decode(gs)
         reply, dom = real_dom(G)
-        print("real :", reply)
-        print("model:", Driver(EXE).ask([CMD + " " + gs])[0])
-        if graphgen.is_rooted(G):
+        model = canon_model(Driver(EXE).ask([(CMD_LARGE if desc else CMD) + " " + graphgen.encode(G)])[0])
+        a, b = short_diff(reply, model)
+        print("real :", a if reply != model else a[:200])
+        print("model:", b if reply != model else "(identical)")
+        if graphgen.is_rooted(G) and G[0] <= 60:
             print("by definition:", {v: d for v, d in sorted(idom_by_definition(G)[1].items())})
-        for f in oracle(G, reply, dom):
+        for f in oracle(G, reply, dom, desc):
             print("oracle:", f["what"], "node", f["case"].get("node"), "expected", f["expected"], "observed", f["observed"])
             return 1
     return 0
